@@ -101,6 +101,9 @@ def convert(
     out.write(strtoio("P6\n{} {}\n255\n".format(cols, rows)))
     for jj in range(rows):
         row = iotostr(f.read(cols >> 3))
+        if len(row) != cols >> 3:
+            sys.stderr.write("image data ends in row {} of {}\n".format(jj, rows))
+            return False
         oy = r2 = g2 = b2 = 0
         for vv in row:
             v = ord(vv)
